@@ -294,7 +294,13 @@ func VHarnessWalletMelt() {
 // counter written back is past every signed counter without leaving a gap of three empty batches before it
 const vhMnemonic = "abandon abandon abandon abandon abandon abandon abandon abandon abandon abandon abandon about"
 
-func VHarnessRestore() {
+func VHarnessRestore()  { vhRestore(4, false) }
+func VHarnessRestore3() { vhRestore(3, false) }
+
+// every one of the first three batches has a signed output (the shortest history on which a cumulative counter update shows)
+func VHarnessRestoreDense() { vhRestore(3, true) }
+
+func vhRestore(nb int, dense bool) {
 	vhDerivedIds = true
 	env := vhNewWallet(0, 0, 0)
 	defer env.close()
@@ -304,11 +310,14 @@ func VHarnessRestore() {
 	// the mint has signed the first output of some of the first four 100-output batches of the active keyset
 	last := -1
 	expected := v.ZU(0)
-	for b := 0; b < 4; b++ {
-		if v.Int(fmt.Sprintf("batch%d.signed", b), 0, 1) == 1 {
+	for b := 0; b < nb; b++ {
+		if dense || v.Int(fmt.Sprintf("batch%d.signed", b), 0, 1) == 1 {
 			B := vhExpectedB(master, env.mint.Active, uint32(100*b))
 			_, ok := env.mint.sign(cashu.BlindedMessages{{Amount: 2, Id: env.mint.Active, B_: B}})
 			v.Assume(ok)
+			// a wallet uses its counters consecutively (C19 part 1), so no history leaves three whole batches without a
+			// signed output below a signed one: such patterns are beyond NUT-13's gap limit by specification
+			v.Assume(b-last <= 3)
 			last = b
 			expected = v.ZAdd(expected, v.ZU(2))
 		}
